@@ -2,7 +2,7 @@ SPECIFICATION CSpec
 CONSTANTS
   Series = {"s1", "s2"}
   TOff = 0
-  TimesRaw = {0, 1, 2, 9}
+  TimesRaw = {0, 1, 9}
   Vals = {1, 2}
   Types = {"f", "h"}
   Apps = {"a1"}
@@ -18,8 +18,8 @@ CONSTANTS
   AllowKF = {}
   KFInitOpts = FALSE
   KFV1Hist = FALSE
-  MaxOps = 5
-  PreT = {0, 1}
+  MaxOps = 6
+  PreT = {}
   TSActs = {}
   Balanced = FALSE
   EmitMode = "class"
